@@ -66,6 +66,13 @@ class WH:
         self.ps, self.k = ps, k
 
 
+class PMASK:
+    """boolean mask over the pairs of a pair list: first component > (or <) second component"""
+
+    def __init__(self, ps, rel, strict):
+        self.ps, self.rel, self.strict = ps, rel, strict
+
+
 class LISTOF:
     def __init__(self, ps, e_ij, e_ji):
         self.ps, self.e_ij, self.e_ji = ps, e_ij, e_ji
@@ -207,6 +214,13 @@ class Eval:
 
     def t_cmp(self, t):
         op, l, r = t[1], self.ev(t[2]), self.ev(t[3])
+        if isinstance(l, WH) and isinstance(r, WH) and {l.k, r.k} == {0, 1} and op in (">", ">=", "<", "<=") and \
+                (l.ps is r.ps or ((l.ps.ij, l.ps.ji) == (r.ps.ij, r.ps.ji) and t[2][0] == "sub" and t[3][0] == "sub" and t[2][1] == t[3][1])):
+            # fro > to on the two index arrays of np.where: a mask over the pairs
+            rel = {">": ">", ">=": ">", "<": "<", "<=": "<"}[op]
+            if (l.k, r.k) == (1, 0):
+                rel = "<" if rel == ">" else ">"
+            return PMASK(l.ps, rel, op in (">", "<"))
         if isinstance(r, E) and r.sign == Z and op in ("!=", "=="):
             return lift((lambda e: nzb(e)) if op == "!=" else (lambda e: bnot(e)), l)
         if isinstance(l, E) and l.sign == Z and op in ("!=", "=="):
@@ -297,6 +311,23 @@ class Eval:
                         return I(nzb(base.x.e) if isinstance(base.x, V) else base.x.b)
                 else:
                     return WH(base.ps, idx[1])
+        if isinstance(base, WH):
+            m = self.ev(idx)
+            if isinstance(m, PMASK) and (m.ps is base.ps or (m.ps.ij, m.ps.ji) == (base.ps.ij, base.ps.ji)):
+                # fro[fro > to]: the index array restricted to the pairs the mask keeps (the same pairs for both arrays)
+                cache = self.__dict__.setdefault("_pmask_cache", {})
+                key = (repr((base.ps.ij, base.ps.ji)), m.rel, m.strict, self.diagonal)
+                if key not in cache:
+                    ps = base.ps
+                    if self.diagonal:
+                        keep = not m.strict
+                        cache[key] = PS(band(ps.ij, keep), band(ps.ji, keep))
+                    else:
+                        g = self.atom("g")        # i > j
+                        keep_ij = g if m.rel == ">" else (not g)
+                        keep_ji = (not g) if m.rel == ">" else g
+                        cache[key] = PS(band(ps.ij, keep_ij), band(ps.ji, keep_ji))
+                return WH(cache[key], base.k)
         if isinstance(base, M):
             # masked read  X[mask]
             m = self.ev(idx)
